@@ -410,6 +410,37 @@ def write_replay(prop_id, name, payload):
     return os.path.relpath(path, VERIF)
 
 
+def _descendants(pid):
+    kids = {}
+    for d in os.listdir("/proc"):
+        if d.isdigit():
+            try:
+                st = open("/proc/%s/stat" % d).read()
+                kids.setdefault(int(st[st.rindex(")") + 2:].split()[1]), []).append(int(d))
+            except (OSError, ValueError):
+                pass
+    out, todo = [], [pid]
+    while todo:
+        for k in kids.get(todo.pop(), []):
+            out.append(k); todo.append(k)
+    return out
+
+
+def _arm_watchdog(limit):
+    """hard wall-clock limit for one check: a time-out is an infrastructure result (exit 2), never a verdict;
+    a tree on which something never ends must be caught by the bounded oracles long before this"""
+    def on_alarm(signum, frame):
+        print("INFRA: check timed out after %d s (wall clock)" % limit, flush=True)
+        for k in _descendants(os.getpid()):
+            try:
+                os.kill(k, signal.SIGKILL)
+            except OSError:
+                pass
+        os._exit(2)
+    signal.signal(signal.SIGALRM, on_alarm)
+    signal.alarm(limit)
+
+
 def run_check(prop_id, mod, tier, seed, replay=None):
     """mod provides:
          LEAN_TARGETS : list of lake targets (Props/Audit modules, driver exe)
@@ -421,6 +452,7 @@ def run_check(prop_id, mod, tier, seed, replay=None):
     """
     ctx = Ctx(prop_id, tier, seed)
     ev_path = os.path.join(VERIF, "evidence", prop_id + ".json")
+    _arm_watchdog(int(os.environ.get("VERIF_TIMEOUT", "900" if tier == "quick" else "5400")))
     try:
         os.remove(ev_path)
     except OSError:
